@@ -83,6 +83,14 @@ def make_plan(seed: int, tier: str, index: int) -> dict[str, Any]:
             schedule = {"mode": "geometric", "seed": s.getrandbits(32), "gap": s.choice([2, 3, 5, 10, 40])}
         plan = {"property": PROP, "seed": seed, "part": "session", "text": gen.render(doc),
                 "clients": clients, "schedule": schedule, "fresh_map": p.random() < 0.5}
+        if n_clients > 1 and not huge and p.random() < 0.4:
+            # a second chart with ANOTHER resolution and the same tempo values lives in the
+            # process; the odd-numbered readers query its tempo map at the same time
+            d3 = copy.deepcopy(doc)
+            new_res = g.choice([r for r in gen.RESOLUTION_POOL if r != doc["resolution"]])
+            d3["resolution"] = new_res
+            d3["meta"] = [[a, (str(new_res) if a == "Resolution" else b)] for a, b in d3["meta"]]
+            plan["other_text"] = gen.render(d3)
         if recycle:
             # history: ANOTHER chart with as many tempo events at other ticks is loaded, asked far
             # look-ups and dropped before this chart is loaded (swept over allocator shifts)
@@ -217,6 +225,13 @@ def _execute_session(plan: dict[str, Any]) -> dict[str, Any]:
             pass
     ticks = [e.tick for e in be]
     n = len(ticks)
+    other_be = None
+    if plan.get("other_text"):
+        try:
+            other_be = world.parse_text(plan["other_text"]).sync_track.bpm_events
+        except Exception:  # noqa: BLE001
+            other_be = None
+    be_main = be
     nontrivial = []
     counters = {"hint_gt0": 0, "expected_valueerror": 0, "returned": 0}
     n_clients = len(plan["clients"])
@@ -230,6 +245,7 @@ def _execute_session(plan: dict[str, Any]) -> dict[str, Any]:
         def body(client: Any) -> None:
             nonlocal n_ops
             returned: list[int] = []
+            be = other_be if (other_be is not None and ci % 2 == 1) else be_main
             for k, op in enumerate(ops):
                 hs = op["hint"]
                 if hs == "zero":
